@@ -415,6 +415,30 @@ func (r *Rig) ApplyMut(fs *FileSet, m Mut, pool *Pool) error {
 		fmt.Sscanf(parts[0], "%d", &n)
 		fs.Anchor = fmt.Sprintf("%d.%s", n+m.I, parts[1])
 		return nil
+	case "dropProvisional":
+		// no provisional index reference, and the anchor count says exactly what is left: the deactivate operations
+		nD := 0
+		if err := edit(fs.CoreIndex, func(j map[string]interface{}) error {
+			delete(j, "provisionalIndexFileUri")
+			if ops, ok := j["operations"].(map[string]interface{}); ok {
+				if d, ok := ops["deactivate"].([]interface{}); ok {
+					nD = len(d)
+				}
+			}
+			return nil
+		}); err != nil {
+			return err
+		}
+		parts := strings.SplitN(fs.Anchor, ".", 2)
+		fs.Anchor = fmt.Sprintf("%d.%s", nD, fs.CoreIndex)
+		_ = parts
+		return nil
+	case "addChunkRef":
+		return edit(fs.ProvIndex, func(j map[string]interface{}) error {
+			chunks, _ := j["chunks"].([]interface{})
+			j["chunks"] = append(chunks, map[string]interface{}{"chunkFileUri": fs.Chunk})
+			return nil
+		})
 	}
 	return fmt.Errorf("unknown mutation %+v", m)
 }
@@ -475,6 +499,11 @@ func (r *Rig) ApplyOpaque(fs *FileSet, class string, variant int) (*Rig, *txn.Si
 	case "longuri":
 		long := uri + strings.Repeat("x", int(r.Params.MaxCasURILength))
 		r.CAS.M[long] = r.CAS.M[uri]
+		if file == "coreIndex" { // the URI inside the anchor string
+			parts := strings.SplitN(fs.Anchor, ".", 2)
+			t.AnchorString = parts[0] + "." + long
+			return r, t, nil
+		}
 		var parent, member string
 		switch file {
 		case "coreProof":
